@@ -36,24 +36,20 @@ func runC01(c *eng.Ctx, thorough bool) {
 
 	// ---------- C01.1 / C01.2 barrier puts carry AEAD output bound to the same key
 	c.Clause("R5", "C01.1")
-	sites := c.P.FindCalls(putM, func(fn *ssa.Function) bool { return eng.InPkg(fn, "barrier") })
+	inBarrier := func(fn *ssa.Function) bool { return eng.InPkg(fn, "barrier") }
+	sites := append(c.P.FindCalls(putM, inBarrier), kBoundIfaceCalls(c, inBarrier, `^<physical\.\w+>\.Put$`)...)
 	nPut := 0
 	for _, s := range sites {
-		if _, isIface := s.Call.Common().Value.Type().Underlying().(interface{ NumMethods() int }); !isIface || !s.Call.Common().IsInvoke() {
+		if kMethod(s.Call) == "" {
 			continue
 		}
 		nPut++
-		args := s.Call.Common().Args
-		ent := args[len(args)-1]
-		sFn := s.Fn
-		// the write may sit in a local forwarding closure whose parameter is the entry: follow it to the closure's call sites
-		if p, isParam := ent.(*ssa.Parameter); isParam && sFn.Parent() != nil {
-			lits, ok := c01ClosureArgs(sFn, p)
-			if !ok || len(lits) != 1 {
-				c.Undecided(sFn, "barrier put entry", s.Call.Pos(), "the entry handed to the physical backend is a parameter of a closure whose call sites cannot all be resolved (moved? the rule cannot be evaluated)")
-				continue
-			}
-			ent, sFn = lits[0], sFn.Parent()
+		args := kArgs(s.Call)
+		// the write may sit in a forwarding closure / unexported helper whose parameter is the entry: follow it to the argument passed
+		sFn, ent, decided := kLiteralOf(c, s.Fn, args[len(args)-1])
+		if !decided {
+			c.Undecided(s.Fn, "barrier put entry", s.Call.Pos(), "the entry handed to the physical backend is a parameter whose call sites cannot all be resolved (moved? the rule cannot be evaluated)")
+			continue
 		}
 		vals := eng.StructLitField(ent, "Value")
 		keys := eng.StructLitField(ent, "Key")
@@ -96,8 +92,8 @@ func runC01(c *eng.Ctx, thorough bool) {
 				c.Prov(f, "encryptTracked result", ret, ret.Results[0], `^call:barrier\.\(\*AESGCMBarrier\)\.encrypt#0$`)
 			}
 		}
-		for _, e := range eng.Calls(f, `barrier\.\(\*AESGCMBarrier\)\.encrypt$`) {
-			a := e.Common().Args
+		for _, e := range kCalls(f, `barrier\.\(\*AESGCMBarrier\)\.encrypt$`) {
+			a := kArgs(e)
 			c.Prov(f, "path forwarded to encrypt", e, a[1], `^param:path$`)
 			c.Prov(f, "plaintext forwarded to encrypt", e, a[4], `^param:`)
 		}
@@ -115,11 +111,11 @@ func runC01(c *eng.Ctx, thorough bool) {
 		}
 		c.Floor(f, "success returns", n, 1)
 		c.Clause("R5", "C01.2")
-		seals := eng.Calls(f, c01AEAD("Seal")+`$`)
+		seals := kCalls(f, c01AEAD("Seal")+`$`)
 		c.Floor(f, "Seal calls", len(seals), 1)
 		bound := 0
 		for _, s := range seals {
-			a := s.Common().Args
+			a := kArgs(s)
 			c.Prov(f, "plaintext sealed", s, a[2], `^param:plain$`)
 			aad := a[3]
 			if eng.IsNilConst(aad) {
@@ -155,11 +151,11 @@ func runC01(c *eng.Ctx, thorough bool) {
 		for _, st := range hdr {
 			c.Prov(f, "version byte at offset 4", st, st.Val, `^field:b\.currentAESGCMVersionByte$`)
 		}
-		if len(eng.Calls(f, `PutUint32$`)) == 0 {
+		if len(kCalls(f, `PutUint32$`)) == 0 {
 			c.Violation(f, "term at offset 0", f.Pos(), "encrypt no longer writes the key term at the head of the record", nil)
 		}
-		for _, pu := range eng.Calls(f, `PutUint32$`) {
-			a := pu.Common().Args
+		for _, pu := range kCalls(f, `PutUint32$`) {
+			a := kArgs(pu)
 			if eng.Expr(a[len(a)-2]) == "makeslice[:4]" {
 				c.OK(f, "term at offset 0", pu.Pos(), "term written to out[:4]")
 			} else {
@@ -170,11 +166,11 @@ func runC01(c *eng.Ctx, thorough bool) {
 	}
 	if f := c.Fn("barrier.(*AESGCMBarrier).decrypt"); f != nil {
 		c.Clause("R5", "C01.2")
-		opens := eng.Calls(f, c01AEAD("Open")+`$`)
+		opens := kCalls(f, c01AEAD("Open")+`$`)
 		c.Floor(f, "Open calls", len(opens), 1)
 		bound := 0
 		for _, o := range opens {
-			a := o.Common().Args
+			a := kArgs(o)
 			if s := eng.Expr(a[2]); s != "cipher[5:]" {
 				c.Violation(f, "ciphertext offset", o.Pos(), "Open is given "+s+", writer puts the ciphertext at [5:]", nil)
 			} else {
@@ -224,18 +220,18 @@ func runC01(c *eng.Ctx, thorough bool) {
 		if f == nil {
 			continue
 		}
-		decs := eng.Calls(f, `barrier\.\(\*AESGCMBarrier\)\.decrypt$`)
-		gets := eng.Calls(f, `<physical\.Backend>\.Get$`)
+		decs := kCalls(f, `barrier\.\(\*AESGCMBarrier\)\.decrypt$`)
+		gets := kCalls(f, `<physical\.Backend>\.Get$`)
 		if len(decs) == 0 && len(gets) == 0 {
 			continue
 		}
 		c.Clause("R5", "C01.2")
 		for _, d := range decs {
-			a := d.Common().Args
+			a := kArgs(d)
 			// the ciphertext comes from a Get in this function, and that Get's key == decrypt's path
 			matched := false
 			for _, g := range gets {
-				ga := g.Common().Args
+				ga := kArgs(g)
 				if eng.ExprDeep(ga[len(ga)-1]) == eng.ExprDeep(a[1]) {
 					matched = true
 				}
@@ -249,8 +245,8 @@ func runC01(c *eng.Ctx, thorough bool) {
 		}
 		// [:4] slices of fetched values are guarded
 		c.Clause("R2", "C01.3")
-		for _, u := range eng.Calls(f, `\.Uint32$`) {
-			a := u.Common().Args
+		for _, u := range kCalls(f, `\.Uint32$`) {
+			a := kArgs(u)
 			buf := eng.Expr(a[len(a)-1])
 			if !strings.HasSuffix(buf, ".Value[:4]") {
 				continue
@@ -262,14 +258,14 @@ func runC01(c *eng.Ctx, thorough bool) {
 	}
 	if f := c.Fn("barrier.(*AESGCMBarrier).lockSwitchedGet"); f != nil {
 		c.Clause("R5", "C01.2")
-		for _, g := range eng.Calls(f, `<physical\.Backend>\.Get$`) {
-			a := g.Common().Args
+		for _, g := range kCalls(f, `<physical\.Backend>\.Get$`) {
+			a := kArgs(g)
 			c.Prov(f, "key fetched", g, a[len(a)-1], `^param:key$`)
-			c.Prov(f, "backend used", g, g.Common().Value, `^param:backend$`)
+			c.Prov(f, "backend used", g, kRecv(g), `^param:backend$`)
 		}
 		// the AEAD is selected by the record's own term
-		for _, at := range eng.Calls(f, `aeadForTerm$`) {
-			c.Prov(f, "term used to select the key", at, at.Common().Args[1], `^call:\(encoding/binary\.bigEndian\)\.Uint32$`)
+		for _, at := range kCalls(f, `aeadForTerm$`) {
+			c.Prov(f, "term used to select the key", at, kArgs(at)[1], `^call:\(encoding/binary\.bigEndian\)\.Uint32$`)
 		}
 		// success with a value only after decrypt succeeded
 		c.Clause("R2", "C01.3")
@@ -278,7 +274,7 @@ func runC01(c *eng.Ctx, thorough bool) {
 			valRets = append(valRets, r)
 		}
 		c.Floor(f, "value-returning exits", len(valRets), 1)
-		c.Cut(f, "return of a decrypted entry", valRets, eng.GCallOK(f, `barrier\.\(\*AESGCMBarrier\)\.decrypt$`), nil)
+		c.Cut(f, "return of a decrypted entry", valRets, nfGCallOK(f, `barrier\.\(\*AESGCMBarrier\)\.decrypt$`), nil)
 		c.Clause("R5", "C01.3")
 		for _, r := range valRets {
 			vals, _, _ := eng.ReturnVals(r.(*ssa.Return), 0)
@@ -312,48 +308,54 @@ func runC01(c *eng.Ctx, thorough bool) {
 			continue
 		}
 		direct := 0
-		for _, b := range f.Blocks {
-			for _, in := range b.Instrs {
-				if ci, ok := in.(ssa.CallInstruction); ok && ci.Common().IsInvoke() && strings.HasPrefix(eng.CalleeName(ci.Common()), "<physical.") {
+		for _, h := range append([]*ssa.Function{f}, eng.Closures(f)...) {
+			for _, ci := range nfAllCalls(h) {
+				if strings.HasPrefix(kName(ci), "<physical.") {
 					direct++
-					c.Violation(f, "funnel{"+via+"}", in.Pos(), "storage method touches the physical backend directly ("+eng.CalleeName(ci.Common())+") instead of going through the single encrypt/decrypt helper", nil)
+					c.Violation(f, "funnel{"+via+"}", ci.Pos(), "storage method touches the physical backend directly ("+kName(ci)+") instead of going through the single encrypt/decrypt helper", nil)
 				}
 			}
 		}
-		calls := eng.Calls(f, via)
-		if len(calls) == 0 {
-			c.Violation(f, "funnel{"+via+"}", f.Pos(), "storage method no longer delegates to "+via, nil)
+		// the delegation: the helper called directly, through a bound method value, or inside a
+		// forwarding closure / same-package helper that calls it on every path
+		sites := nfPlain(nfSites(f, via))
+		if len(sites) == 0 {
+			if len(kMaySites(f, via, 2)) > 0 {
+				c.Undecided(f, "funnel{"+via+"}", f.Pos(), "the storage method reaches "+via+" only on some paths of a closure or helper (moved? the rule cannot be evaluated)")
+			} else {
+				c.Violation(f, "funnel{"+via+"}", f.Pos(), "storage method no longer delegates to "+via, nil)
+			}
 		} else if direct == 0 {
-			c.OK(f, "funnel{"+via+"}", calls[0].Pos(), "reaches the backend only through the helper")
+			c.OK(f, "funnel{"+via+"}", sites[0].At.Pos(), "reaches the backend only through the helper")
 		}
 		if strings.Contains(fn, "Transaction") {
-			for _, cl := range calls {
-				// the backend argument is the transaction
+			for _, e := range nfEffs(sites) {
+				// the backend argument is the transaction (read through whatever alias / closure parameter)
 				found := false
-				for _, a := range cl.Common().Args {
-					if strings.Contains(eng.Expr(a), "t.txn") {
+				for _, a := range e.Call.Args {
+					if ok, _ := nfAll(a, e.Fr, func(o eng.Origin) bool { return o.Kind == "field" && o.Desc == "t.txn" }); ok {
 						found = true
 					}
 				}
 				if found {
-					c.OK(f, "transactional sibling uses t.txn", cl.Pos(), "helper called with the wrapped transaction as backend")
+					c.OK(f, "transactional sibling uses t.txn", e.Call.In.Pos(), "helper called with the wrapped transaction as backend")
 				} else {
-					c.Violation(f, "transactional sibling uses t.txn", cl.Pos(), "the transaction's storage method does not pass its own transaction to the helper: writes would bypass the transaction", nil)
+					c.Violation(f, "transactional sibling uses t.txn", e.Call.In.Pos(), "the transaction's storage method does not pass its own transaction to the helper: writes would bypass the transaction", nil)
 				}
 			}
 		}
 	}
 	if f := c.Fn("barrier.(*AESGCMBarrier).putWithBackend"); f != nil {
 		c.Clause("R5", "C01.2")
-		for _, pi := range eng.Calls(f, `putInternal$`) {
-			a := pi.Common().Args
+		for _, pi := range kCalls(f, `putInternal$`) {
+			a := kArgs(pi)
 			c.Prov(f, "term used for new writes", pi, a[3], `ActiveTerm`, `\.Term$`, `^call:barrier\.\(\*Keyring\)\.ActiveTerm$`)
 		}
 	}
 
 	// ---------- C01.5 raw writers of the physical backend
 	c.Clause("R1", "C01.5")
-	raw := c.P.FindCalls(wrM, func(fn *ssa.Function) bool {
+	rawKeep := func(fn *ssa.Function) bool {
 		p := eng.PkgPathOf(fn)
 		if strings.HasPrefix(p, eng.ModSDK+"/physical") || strings.HasPrefix(p, eng.ModMain+"/internal/physical") || p == eng.Alias["barrier"] {
 			return false
@@ -362,14 +364,17 @@ func runC01(c *eng.Ctx, thorough bool) {
 			return false
 		}
 		return true
-	})
+	}
+	raw := c.P.FindCalls(wrM, rawKeep)
 	// only invokes on the physical interfaces (not concrete-type methods that happen to implement it, e.g. views)
 	var rawSites []eng.CallSite
 	for _, s := range raw {
-		if s.Call.Common().IsInvoke() && strings.HasPrefix(eng.CalleeName(s.Call.Common()), "<physical.") {
+		if s.Call.Common().IsInvoke() && strings.HasPrefix(kName(s.Call), "<physical.") {
 			rawSites = append(rawSites, s)
 		}
 	}
+	// ... and the same methods called through a bound method value (w := c.physical.Put; w(ctx, e))
+	rawSites = append(rawSites, kBoundIfaceCalls(c, rawKeep, `^<physical\.\w+>\.(Put|Delete)$`)...)
 	table := map[string]string{
 		"vault.(*directStorageAccess).Put":                      "the sanctioned raw accessor for seal configuration (constructors tabled below)",
 		"vault.(*directStorageAccess).Delete":                   "the sanctioned raw accessor for seal configuration",
@@ -390,9 +395,6 @@ func runC01(c *eng.Ctx, thorough bool) {
 		"logical.(*InmemStorage).Put":                           "sdk in-memory test storage",
 		"logical.(*InmemStorage).Delete":                        "sdk in-memory test storage",
 	}
-	c.CallerTable("physical.Backend.Put/Delete outside the storage layers", rawSites, table, 14)
-	// key provenance per row
-	c.Clause("R5", "C01.5")
 	keyConst := map[string][]string{
 		"vault.writeStoredKeys":                                 {`^const:"core/hsm/barrier-unseal-keys"$`, `^param:metaPrefix$`},
 		"vault.(*autoSeal).SetRecoveryKey":                      {`^const:"core/recovery-key"$`, `^field:d\.metaPrefix$`},
@@ -406,43 +408,89 @@ func runC01(c *eng.Ctx, thorough bool) {
 		"vault.(*Core).migrateSealConfig": {`^const:"core/recovery-config"$`},
 		"command.SetStorageMigration":     {`^const:"core/migration"$`},
 	}
+	// a raw write in an unexported helper that serves exactly one tabled, key-pinned writer (an
+	// extracted block) belongs to that writer: it is held to the writer's pinned keys below
+	servedBy := map[ssa.Instruction]string{}
+	var tableSites []eng.CallSite
+	for _, s := range rawSites {
+		top := eng.TopFunc(s.Fn)
+		name := eng.FuncName(top)
+		owner := ""
+		if _, tabled := table[name]; !tabled && top.Object() != nil && !top.Object().Exported() && top.Synthetic == "" && len(c.P.FuncValueUses(name)) == 0 {
+			if m, miss := c.P.StaticCallee(name); len(miss) == 0 {
+				for _, cs := range c.P.FindCalls(m, nil) {
+					cn := eng.FuncName(eng.TopFunc(cs.Fn))
+					_, pinnedPut := keyConst[cn]
+					_, pinnedDel := delConst[cn]
+					if _, tabled := table[cn]; !tabled || !(pinnedPut || pinnedDel) || (owner != "" && owner != cn) {
+						owner = ""
+						break
+					}
+					owner = cn
+				}
+			}
+		}
+		if owner == "" {
+			tableSites = append(tableSites, s)
+			continue
+		}
+		servedBy[s.Call] = owner
+		c.OK(top, "callers{physical.Backend.Put/Delete outside the storage layers} [helper of "+owner+"]", s.Call.Pos(), "unexported helper called only by the tabled writer "+owner+"; held to that writer's pinned keys")
+	}
+	c.CallerTable("physical.Backend.Put/Delete outside the storage layers", tableSites, table, 14-len(servedBy))
+	// key provenance per row
+	c.Clause("R5", "C01.5")
 	for _, s := range rawSites {
 		top := eng.FuncName(eng.TopFunc(s.Fn))
-		args := s.Call.Common().Args
-		switch s.Call.Common().Method.Name() {
+		if o := servedBy[s.Call]; o != "" {
+			top = o
+		}
+		args := kArgs(s.Call)
+		switch kMethod(s.Call) {
 		case "Put":
 			allowed, ok := keyConst[top]
 			if !ok {
+				if servedBy[s.Call] != "" {
+					c.Violation(s.Fn, "raw writer key", s.Call.Pos(), "helper of "+top+" writes raw although "+top+" has no pinned write key", nil)
+				}
 				continue
 			}
-			keys := eng.StructLitField(args[len(args)-1], "Key")
+			eFn, ent, decided := kLiteralOf(c, s.Fn, args[len(args)-1])
+			if !decided {
+				c.Undecided(s.Fn, "raw writer key", s.Call.Pos(), "the entry written raw is a parameter whose call sites cannot all be resolved (moved? the rule cannot be evaluated)")
+				continue
+			}
+			keys := eng.StructLitField(ent, "Key")
 			if len(keys) == 0 {
 				c.Violation(s.Fn, "raw writer key", s.Call.Pos(), "raw physical write whose entry is not a local literal: key cannot be pinned", nil)
 			}
 			for _, k := range keys {
-				c.Prov(s.Fn, "raw writer key ("+top+")", s.Call, k, allowed...)
+				c.Prov(eFn, "raw writer key ("+top+")", s.Call, k, allowed...)
 			}
 		case "Delete":
 			allowed, ok := delConst[top]
 			if !ok {
+				if servedBy[s.Call] != "" {
+					c.Violation(s.Fn, "raw delete key", s.Call.Pos(), "helper of "+top+" deletes raw although "+top+" has no pinned delete key", nil)
+				}
 				continue
 			}
-			c.Prov(s.Fn, "raw delete key ("+top+")", s.Call, args[len(args)-1], allowed...)
+			nfProv(c, s.Fn, "raw delete key ("+top+")", s.Call, args[len(args)-1], nil, allowed...)
 		}
 	}
 	// UI config: plaintext copy of a value that is also written through the barrier
 	if f := c.Fn("vault.(*UIConfig).save"); f != nil {
 		c.Clause("R5", "C01.5")
 		for _, s := range rawSites {
-			if eng.TopFunc(s.Fn) != f || s.Call.Common().Method.Name() != "Put" {
+			if eng.TopFunc(s.Fn) != f || kMethod(s.Call) != "Put" {
 				continue
 			}
-			args := s.Call.Common().Args
+			args := kArgs(s.Call)
 			for _, v := range eng.StructLitField(args[len(args)-1], "Value") {
 				// the same value is stored through the barrier in this function
 				same := false
-				for _, bp := range eng.Calls(f, `<logical\.Storage>\.Put$`) {
-					ba := bp.Common().Args
+				for _, bp := range kCalls(f, `<logical\.Storage>\.Put$`) {
+					ba := kArgs(bp)
 					for _, bv := range eng.StructLitField(ba[len(ba)-1], "Value") {
 						if bv == v {
 							same = true
@@ -526,42 +574,6 @@ func c01V1(c *eng.Ctx) string {
 		return "1"
 	}
 	return v
-}
-
-// c01ClosureArgs: for parameter p of the anonymous function fn, the values
-// passed for it at every call of the closure in the enclosing function; ok is
-// false when the closure value is used other than by being called.
-func c01ClosureArgs(fn *ssa.Function, p *ssa.Parameter) ([]ssa.Value, bool) {
-	idx := -1
-	for i, q := range fn.Params {
-		if q == p {
-			idx = i
-		}
-	}
-	parent := fn.Parent()
-	if idx < 0 || parent == nil {
-		return nil, false
-	}
-	var out []ssa.Value
-	for _, b := range parent.Blocks {
-		for _, in := range b.Instrs {
-			mc, ok := in.(*ssa.MakeClosure)
-			if !ok || mc.Fn != fn {
-				continue
-			}
-			if mc.Referrers() == nil {
-				return nil, false
-			}
-			for _, r := range *mc.Referrers() {
-				ci, isCall := r.(ssa.CallInstruction)
-				if !isCall || ci.Common().Value != ssa.Value(mc) || idx >= len(ci.Common().Args) {
-					return nil, false
-				}
-				out = append(out, ci.Common().Args[idx])
-			}
-		}
-	}
-	return out, len(out) > 0
 }
 
 func reQuote(s string) string {
